@@ -94,6 +94,29 @@ pub fn run(r: &mut Report) {
         }
         r.case("canonical-form-parses-back", json!({"documents": n, "texts": ts.len()}), "every accepted document's canonical bytes parse back to an equal value", format!("{:?}", bad), bad.is_empty());
     }
+    // timestamps of the SLSA metadata in every notation (whole seconds, fractions of every length, offsets, leap-second spelling):
+    // a document is either refused or, if accepted, its canonical form parses back to an equal value
+    {
+        let mut bad: Vec<String> = vec![]; let mut n = 0; let mut accepted = 0;
+        for ts in ["2020-08-19T08:38:00Z", "2020-08-19T08:38:00.5Z", "2020-08-19T08:38:00.000Z", "2020-08-19T08:38:00.123456789Z", "2020-08-19T08:38:00.999999999999Z", "2020-08-19T08:38:00+05:30",
+                   "2020-08-19T08:38:00.25-11:00", "2020-08-19T23:59:60Z", "2020-08-19t08:38:00z", "2020-08-19 08:38:00Z", "0001-01-01T00:00:00Z", "9999-12-31T23:59:59.9Z", "", "yesterday"] {
+            for (kind, pd) in [("slsa v0.1", json!({"builder": {"id": "b"}, "metadata": {"buildStartedOn": ts, "buildFinishedOn": ts, "completeness": {"arguments": true, "environment": false, "materials": true}, "reproducible": false}, "materials": [{"uri": "u"}]})),
+                               ("slsa v0.2", json!({"builder": {"id": "b"}, "buildType": "t", "metadata": {"buildStartedOn": ts, "completeness": {"parameters": true, "environment": false, "materials": true}, "reproducible": true}, "materials": []}))] {
+                n += 1;
+                for via in ["text", "value"] {
+                    let parsed: Option<PredicateWrapper> = if via == "text" { serde_json::from_str(&pd.to_string()).ok() } else { no_panic(|| PredicateWrapper::try_from_value(pd.clone())).ok().and_then(|x| x.ok()) };
+                    if let Some(p) = parsed {
+                        accepted += 1;
+                        let bytes = no_panic(|| p.clone().into_trait().to_bytes());
+                        let text = match &bytes { Ok(Ok(b)) => String::from_utf8_lossy(b).to_string(), _ => String::new() };
+                        let back: Option<PredicateWrapper> = serde_json::from_str(&text).ok().or_else(|| serde_json::from_str::<Value>(&text).ok().and_then(|v| PredicateWrapper::try_from_value(v).ok()));
+                        if back.as_ref() != Some(&p) && bad.len() < 6 { bad.push(format!("{} predicate with timestamp {:?} (read from {}): canonical form {:?} does not parse back equal", kind, ts, via, text.chars().take(160).collect::<String>())); }
+                    }
+                }
+            }
+        }
+        r.case("timestamps-in-every-notation", json!({"documents": n, "accepted_readings": accepted}), "refused, or accepted and round-tripping", format!("{:?}", bad), bad.is_empty());
+    }
     // integer members at the extremes of their types (`definedInMaterial` is an unsigned machine word, `return-value` a signed
     // 32-bit number): the canonical form carries the same digits and parses back to an equal value, bare and inside a statement
     {
